@@ -139,6 +139,24 @@ def insertStr (x : Text) : List Text → List Text
 /-- `sorted(list_of_str)` (stable insertion sort; equal strings are indistinguishable) -/
 def sortedStr (l : List Text) : List Text := l.foldr insertStr []
 
+def insertIntDesc (x : Int) : List Int → List Int
+  | [] => [x]
+  | y :: ys => if x ≤ y then y :: insertIntDesc x ys else x :: y :: ys
+
+/-- `sorted(list_of_int, reverse=True)` (insertion sort; equal ints are indistinguishable) -/
+def sortedIntDesc (l : List Int) : List Int := l.foldr insertIntDesc []
+
+/-- `x = l.pop()`: the last item and the list without it; IndexError when the list is empty -/
+def popLast {α} (l : List α) : Outcome (α × List α) :=
+  match l.getLast? with
+  | some x => .ok (x, l.dropLast)
+  | none => .escape .indexError
+
+/-- `[x for x in xs if c(x)]` where the condition may raise: the first failure wins -/
+def filterO {α} (p : α → Outcome Bool) : List α → Outcome (List α)
+  | [] => .ok []
+  | x :: xs => (p x).bind (fun b => (filterO p xs).bind (fun r => .ok (if b then x :: r else r)))
+
 def hexDigitLower (n : Nat) : Nat := if n < 10 then 48 + n else 87 + n
 
 /-- `binascii.b2a_hex` / `hexlify` -/
@@ -256,6 +274,8 @@ structure BitCfg where
   field_length : Int
   /-- `bit_config.get('field_python_type')`; an absent key (None) is the empty text: it equals no type name -/
   field_python_type : Text := []
+  /-- `bit_config.get('field_processor')`; an absent key (None) is the empty text: it equals no processor name -/
+  field_processor : Text := []
   /-- `bit_config.get('field_date_format')`; `none` = absent -/
   field_date_format : Option Text := none
   deriving Repr
